@@ -522,6 +522,9 @@ class Stepper:
     def install(self):
         st = self
         og, os_ = ParseCache.__getitem__, ParseCache.__setitem__
+        # the code objects of the ORIGINAL ParseCache methods (taken before the two wrappers below replace __getitem__ and
+        # __setitem__ in the class): line-level pre-emption applies inside these
+        self.cache_codes = {f.__code__ for f in vars(ParseCache).values() if hasattr(f, "__code__")}
 
         def gi(self, key):
             st.gate()
@@ -547,7 +550,7 @@ class Stepper:
         line_level: additionally stop before every LINE executed inside a ParseCache method (pre-emption inside
         __getitem__/__setitem__/_drop_stale, below the granularity the model covers)"""
         results = [None] * len(thunks)
-        cache_codes = {f.__code__ for f in vars(ParseCache).values() if hasattr(f, "__code__")}
+        cache_codes = self.cache_codes
         st = self
 
         def tracer(frame, event, arg):
@@ -699,12 +702,51 @@ def mass_suspension(stats, mism, n=600):
     stats["mass_suspension_listings"] = n
 
 
+def lockstep_fixed(stats, mism):
+    """n threads issue the SAME request over caches with a size limit and advance in lock step, one source LINE of a ParseCache
+    method at a time (round robin): every test-then-act pair inside the cache methods is separated by the other threads'
+    steps.  Found while proving the micro-step model (CacheFine*.v): the eviction in __setitem__ popped from a dictionary
+    that the other threads had just emptied (KeyError out of a parse request)."""
+    L = lambda t: ["lit", 0, t]  # noqa: E731
+    g = {"rules": [{"name": "s", "def": ["rep", 0, None, ["ref", "x"]], "excl": None},
+                   {"name": "x", "def": ["alt", 0, [L("a"), ["rep", 2, 2, L("a")]]], "excl": None}], "alpha": ["a"]}
+    for q in [(2, "s", "aaa", 0), (0, "s", "aaaa", 0)]:
+        cls0, objs0 = pyimpl.build_grammar(g)
+        want = req_impl(objs0, *q)
+        for nthreads in (2, 3, 4):
+            for limit in (1, 2):
+                for stale in (False, True):
+                    cls, objs = pyimpl.build_grammar(g)
+                    d = pyimpl.Dump()
+                    d.grammar([objs[r["name"]] for r in g["rules"]])
+                    for rep in d.keep:
+                        rep.lparse_cache.max_size = limit
+                    if stale:
+                        req_impl(objs, *q)
+                        ParseCache.invalidate()        # every cache is stale when the threads start
+                    stp = Stepper()
+                    stp.install()
+                    try:
+                        res, steps = stp.run([(lambda: req_impl(objs, *q)) for _ in range(nthreads)], list(range(nthreads)) * 700,
+                                             line_level=True)
+                    finally:
+                        stp.restore()
+                    stats["lockstep_schedules"] = stats.get("lockstep_schedules", 0) + 1
+                    for r in res:
+                        if r != want:
+                            mism.append({"class": "lock-step(line-level)", "request": q, "threads": nthreads, "limit": limit,
+                                         "caches_stale_at_start": stale, "schedule": "round robin, one line of a ParseCache method per turn",
+                                         "got": (r or "None")[:300], "sequential": want[:300], "case": {"grammar": g}})
+                            return
+
+
 def run_c17(cases, exhaustive_upto=7):
     mism, stats = [], {"schedules": 0, "steps": 0, "exhaustive_cases": 0, "random_schedules": 0, "requests": 0,
                        "generator_scripts": 0, "stress_runs": 0}
     distinct = set()
     line_level_fixed(stats, mism)
     mass_suspension(stats, mism)
+    lockstep_fixed(stats, mism)
     for c in cases:
         g = c["grammar"]
         # sequential reference on a cold twin
